@@ -626,6 +626,9 @@ func (m *master) eval(c Case, class string) Outcome {
 	return m.evalChildTimeout(c, 60*time.Second)
 }
 
+// shrinkWall bounds the time spent minimising one violation.
+const shrinkWall = 60 * time.Second
+
 // shrink minimises a failing case, keeping a candidate only if the same
 // violation class persists.
 func (m *master) shrink(c Case, oc Outcome) (Case, Outcome, int) {
@@ -646,11 +649,14 @@ func (m *master) shrink(c Case, oc Outcome) (Case, Outcome, int) {
 	}
 	best, bestOut := c, first
 	steps, evals := 0, 0
-	for improved := true; improved && evals < budget; {
+	// wall-clock bound on minimisation (it only decides how small the reported
+	// case gets, never whether something is reported)
+	stop := time.Now().Add(shrinkWall)
+	for improved := true; improved && evals < budget && time.Now().Before(stop); {
 		improved = false
 		for _, cand := range m.d.Shrink(best) {
 			evals++
-			if evals > budget {
+			if evals > budget || !time.Now().Before(stop) {
 				break
 			}
 			o := m.eval(cand, class)
